@@ -33,6 +33,8 @@ TEXT = {
             "single faults only; injection points are those of the reference execution (a run that does not reach its point is a harness error)"),
     'C13': ('fault_enumeration', '7 C13', "Kill-point enumeration in the simulated process backends: the worker is killed (frozen for ever, no finally, no with-exit) at every yield point of its save phase - storage calls, write/flush/close boundaries, line boundaries of the save path, a split inside writes larger than a page - each with user-space buffers lost and flushed first; first save and overwrite; afterwards a new Lab must either not report the task or load a complete old/new value. Exhaustive over the kill points of the reference executions.",
             "process-kill semantics only (OS page cache survives); interleavings inside one storage operation (e.g. a half-finished rmtree) are not modelled"),
+    'C14': ('fault_enumeration', '7 C14', "Serial backend: one run per line-event index executed by the calling thread inside labtech during run_tasks (exhaustive for two fixed workloads, ~5 300 instants) plus sampled interrupt pairs; process backends (simulated fork/spawn): seeded search over DAGs, schedules and one or two interrupt instants, delivered at main-thread line boundaries or while the main thread is blocked in the helper thread's join, to the whole foreground group according to each child's recorded SIGINT disposition. Oracle: KeyboardInterrupt and nothing else, no process/task start after the interrupt, executing workers finish and their results are cached (single) or are dead without a further worker step (double), every entry reported cached afterwards loads a correct value.",
+            "interrupt instants are line boundaries of labtech's own code plus blocked seam operations; instants inside the standard library are attributed to the calling labtech line"),
     'C16': ('exploration', '7 C16', "At the process-creation seam every worker of the fork/spawn backend must be requested from the fork/spawn context; context seen inside run() equals filter_context(lab.context); storage is byte-identical between runs differing only in context; plus a real-OS probe (pid, ppid, module global mutated by the parent) on the three real backends.",
             "the real-OS half has no schedule dependence and is a real-execution probe, declared as such"),
     'C19': ('exploration', '7 C19', "Simulated fork and spawn backends; every node emits a drawn pattern of uniquely tokenised labtech.logger records, printed lines, stderr lines, partial writes and explicit flushes; a handler on the caller's logger must have received each required token exactly once before run_tasks returns; the scheduler decides which worker finishes in the last polling round.",
